@@ -59,7 +59,16 @@ var (
 	internTab  = map[string]string{}
 	internDefs []string
 	internCase int
+	internOut  int // definitions already printed
 )
+
+// flushDefs prints the byte-string definitions made since the last call: every STEP line is preceded by the
+// definitions it uses, so the history of a case stays usable when the process dies in the middle of it
+func flushDefs(out io.Writer) {
+	for ; internOut < len(internDefs); internOut++ {
+		fmt.Fprintln(out, internDefs[internOut])
+	}
+}
 
 func coqBytes(b []byte) string {
 	if len(b) == 0 {
@@ -567,6 +576,8 @@ type runner struct {
 	smKey       int // pool key the harness's state machine signs with (-1: it does not vote)
 	actions     chan tmengine.VerifMRoundAction
 	forceReplay int // the next replay uses this variant
+	phViaAction bool // the proposal being built is the state machine's own: it reaches the mirror as an action
+	lastAct     *actRec // the last vote the state machine handed over (for duplicates)
 	script []string // scripted operations still to run: interleaving templates that random choice rarely lines up
 
 	io               string   // what a consumer operation received (tr), consumed by the next observe()
@@ -679,6 +690,39 @@ func (rn *runner) barrier() {
 func (rn *runner) doEnter(h uint64, r uint32) {
 	hc := make(chan struct{})
 	rn.actions = make(chan tmengine.VerifMRoundAction, 3)
+	if !concurrentMode {
+		// the state machine's identity: mostly a validator of the set it believes in for that height, sometimes a key
+		// outside that set, sometimes none (a node that only follows)
+		vs := rn.valsFor(h)
+		switch x := rn.w.r.below(20); {
+		case x < 14 && len(vs.keys) > 0:
+			rn.smKey = vs.keys[rn.w.r.below(len(vs.keys))]
+			rn.stats["sm_key_validator"]++
+		case x < 17:
+			rn.smKey = -1
+			for k := 0; k < poolSize; k++ {
+				in := false
+				for _, y := range vs.keys {
+					if y == k {
+						in = true
+					}
+				}
+				if !in {
+					rn.smKey = k
+					break
+				}
+			}
+			if rn.smKey >= 0 {
+				rn.stats["sm_key_outside_set"]++
+			} else {
+				rn.stats["sm_key_none"]++
+			}
+		default:
+			rn.smKey = -1
+			rn.stats["sm_key_none"]++
+		}
+		rn.lastAct = nil
+	}
 	var pk gcrypto.PubKey
 	if rn.smKey >= 0 {
 		pk = rn.w.pool[rn.smKey].Val.PubKey
@@ -709,7 +753,11 @@ func (rn *runner) doEnter(h uint64, r uint32) {
 	}
 	rn.stats["sm_enter"]++
 	rn.barrier()
-	rn.printStep("STEP (MEnter %d %d) @@ 0 @@ %s\n", h, r, rn.observe())
+	if rn.smKey >= 0 {
+		rn.printStep("STEP (MEnterK %d %d (Some %d)) @@ 0 @@ %s\n", h, r, rn.smKey, rn.observe())
+	} else {
+		rn.printStep("STEP (MEnter %d %d) @@ 0 @@ %s\n", h, r, rn.observe())
+	}
 }
 
 func (rn *runner) doSMRead() {
@@ -953,6 +1001,7 @@ func (rn *runner) coqHdr(hd tmconsensus.Header, hashOK bool, cur, next valset) s
 // printStep prints one step; in concurrent mode the operation is not modelled (the batches have no sequential
 // counterpart), so only the observation is kept.
 func (rn *runner) printStep(format string, args ...interface{}) {
+	flushDefs(rn.out)
 	if concurrentMode {
 		fmt.Fprintf(rn.out, "CSTEP @@ %s\n", args[len(args)-1])
 		return
@@ -1028,6 +1077,10 @@ func (rn *runner) startMirror() {
 
 // deliver a proposed header; waits for the asynchronous add to land in the round store
 func (rn *runner) doPH(ph tmconsensus.ProposedHeader, coq string) {
+	if rn.phViaAction && rn.canAct() && ph.ProposerPubKey != nil {
+		rn.doActionPH(ph, coq)
+		return
+	}
 	if rn.pendingCrash >= 0 {
 		rn.redo = func() { rn.stats["redelivered_ph"]++; rn.doPH(ph, coq) }
 	}
@@ -1225,6 +1278,9 @@ func (rn *runner) step() {
 	} else if rn.pendingCrash < 0 && w.r.chance(1, 12) {
 		// interleaving templates; with consumers the races between the state machine and view shifts come first
 		y := w.r.below(6)
+		if rn.consumers && !concurrentMode && w.r.chance(1, 3) {
+			y = 6 + w.r.below(2)
+		}
 		canEnter := !rn.entered || v.Height > rn.lastEnterH || (v.Height == rn.lastEnterH && v.Round >= rn.lastEnterR)
 		switch {
 		case y <= 1 && rn.consumers && canEnter:
@@ -1244,6 +1300,15 @@ func (rn *runner) step() {
 			// a whole round in order: proposal, prevotes, precommits by everyone
 			rn.stats["script_full_round"]++
 			rn.script = []string{"propose", "prevote-all", "precommit-all"}
+		case y == 6 && canEnter:
+			// the local validator is late: the network commits the block while its own vote (for a target nobody
+			// else voted for) is still on its way; the round it entered is the committing view when the vote arrives
+			rn.stats["script_late_local_vote"]++
+			rn.script = []string{"enter-voting?", "propose", "precommit-all", "act-fresh", "act-dup", "act-fresh", "smread", "gread"}
+		case y == 7 && canEnter:
+			// a whole round in which the local validator takes part: its proposal, its votes next to everybody's
+			rn.stats["script_local_round"]++
+			rn.script = []string{"enter-voting?", "act-ph", "act-prevote", "prevote-all", "act-precommit", "smread", "precommit-all", "act-precommit", "gread"}
 		case y == 5:
 			// a commit attempt made of ONE validator's precommit filed under every key id
 			rn.stats["script_one_signature_for_all"]++
@@ -1281,6 +1346,16 @@ func (rn *runner) step() {
 		case x < 38:
 			rn.doGRead()
 			return
+		case x < 52 && !concurrentMode:
+			// the state machine acts: if it is not in the voting round any more it mostly catches up first
+			if rn.entered && rn.pendingCrash < 0 && (v.Height > rn.lastEnterH || (v.Height == rn.lastEnterH && v.Round > rn.lastEnterR)) && w.r.chance(1, 2) {
+				rn.lastEnterH, rn.lastEnterR = v.Height, v.Round
+				rn.doEnter(v.Height, v.Round)
+				return
+			}
+			if rn.seqAction(&v, &c) {
+				return
+			}
 		}
 	}
 	if replayMode && w.r.chance(1, 9) {
@@ -1557,11 +1632,176 @@ func (rn *runner) doActionVote(kind int, target string) {
 	rn.printStep("STEP %s @@ %d @@ %s\n", "action", 0, rn.observe())
 }
 
+type actRec struct {
+	kind   int
+	target string
+	sig    []byte
+}
+
+// sendAction hands one action to the kernel through the entrance's action channel and waits until the kernel has
+// taken it and finished the loop iteration that handles it.
+func (rn *runner) sendAction(act tmengine.VerifMRoundAction) {
+	select {
+	case rn.actions <- act:
+	case <-time.After(2 * time.Second):
+		panic("kernel did not take the state machine action")
+	}
+	deadline := time.Now().Add(3 * time.Second)
+	for len(rn.actions) > 0 {
+		if time.Now().After(deadline) {
+			panic("kernel did not receive the state machine action")
+		}
+		rn.barrier()
+	}
+	rn.barrier()
+}
+
+// canAct: the harness's state machine has an open action channel into the running kernel
+func (rn *runner) canAct() bool {
+	return rn.consumers && rn.entered && rn.actions != nil && rn.pendingCrash < 0
+}
+
+// doSeqActionVote (sequential mode): the state machine's own prevote / precommit for the round it entered, printed as
+// a model operation. flaw: 0 genuine, 1 junk bytes, 2 another key's signature, 3 signature for the next round,
+// 4 signature of the other vote kind, 5 signature for another target. The sign content handed along is always the
+// sign bytes of (kind, entered height, entered round, target).
+func (rn *runner) doSeqActionVote(kind int, target string, flaw int) {
+	if !rn.canAct() || rn.smKey < 0 {
+		return
+	}
+	w := rn.w
+	h, r := rn.lastEnterH, rn.lastEnterR
+	vt := tmconsensus.VoteTarget{Height: h, Round: r, BlockHash: target}
+	var sb []byte
+	if kind == kindPrevote {
+		sb, _ = tmconsensus.PrevoteSignBytes(vt, w.ss)
+	} else {
+		sb, _ = tmconsensus.PrecommitSignBytes(vt, w.ss)
+	}
+	var sig []byte
+	switch flaw {
+	case 1:
+		sig = w.junkSig()
+	case 2:
+		sig = w.voteSig((rn.smKey+1+w.r.below(poolSize-1))%poolSize, kind, h, r, target)
+	case 3:
+		sig = w.voteSig(rn.smKey, kind, h, r+1, target)
+	case 4:
+		sig = w.voteSig(rn.smKey, 1-kind, h, r, target)
+	case 5:
+		sig = w.voteSig(rn.smKey, kind, h, r, target+"x")
+	default:
+		sig = w.voteSig(rn.smKey, kind, h, r, target)
+	}
+	rn.doSeqActionSig(kind, target, sb, sig)
+	rn.stats[fmt.Sprintf("sm_action_flaw_%d", flaw)]++
+}
+
+func (rn *runner) doSeqActionSig(kind int, target string, sb, sig []byte) {
+	h, r := rn.lastEnterH, rn.lastEnterR
+	v, c := rn.views()
+	switch {
+	case v.Height == h && v.Round == r:
+		rn.stats["sm_action_timely"]++
+	case c.Height == h && c.Round == r:
+		rn.stats["sm_action_late_committing"]++
+	default:
+		rn.stats["sm_action_late_dropped"]++
+	}
+	act := tmengine.VerifMRoundAction{}
+	ss := tmengine.VerifMScopedSignature{TargetHash: target, SignContent: sb, Sig: sig}
+	name := "MActPrevote"
+	if kind == kindPrevote {
+		act.Prevote = ss
+	} else {
+		act.Precommit = ss
+		name = "MActPrecommit"
+	}
+	rn.touched[hr{h, r}] = true
+	opText := fmt.Sprintf("(%s %s %s)", name, coqBytes([]byte(target)), rn.w.desc(sig))
+	if !concurrentMode {
+		flushDefs(rn.out)
+		fmt.Fprintf(rn.out, "ATTEMPT %s\n", opText) // if the kernel dies on it, this is the operation that killed it
+	}
+	rn.sendAction(act)
+	rn.lastAct = &actRec{kind, target, sig}
+	rn.stats[fmt.Sprintf("sm_action_%d", kind)]++
+	rn.printStep("STEP %s @@ 0 @@ %s\n", opText, rn.observe())
+}
+
+// seqAction: one random action of the state machine in sequential mode
+func (rn *runner) seqAction(v, c *tmconsensus.VersionedRoundView) bool {
+	if !rn.canAct() {
+		return false
+	}
+	w := rn.w
+	h, r := rn.lastEnterH, rn.lastEnterR
+	x := w.r.below(100)
+	if x < 14 && v.Height == h && v.Round == r {
+		// its own proposal for the round it is in: the kernel files it without any check. Mostly a well-formed one;
+		// now and then one whose block hash is wrong (the witness of C05Act_local_ph_keeps_chain_invariant_refuted:
+		// the real kernel files it just the same)
+		variant := 0
+		if x < 3 {
+			variant = 1
+			rn.stats["sm_action_ph_unchecked"]++
+		}
+		rn.phViaAction = true
+		rn.proposal(v, c, h, r, variant)
+		rn.phViaAction = false
+		return true
+	}
+	if rn.smKey < 0 {
+		return false // a state machine without a key does not vote
+	}
+	if x < 24 && rn.lastAct != nil {
+		// the same vote again
+		a := rn.lastAct
+		vt := tmconsensus.VoteTarget{Height: h, Round: r, BlockHash: a.target}
+		var sb []byte
+		if a.kind == kindPrevote {
+			sb, _ = tmconsensus.PrevoteSignBytes(vt, w.ss)
+		} else {
+			sb, _ = tmconsensus.PrecommitSignBytes(vt, w.ss)
+		}
+		rn.stats["sm_action_duplicate"]++
+		rn.doSeqActionSig(a.kind, a.target, sb, a.sig)
+		return true
+	}
+	kind := w.r.below(2)
+	target := rn.pickTarget(rn.knownPHs[hr{h, r}])
+	if w.r.chance(1, 5) {
+		target = fmt.Sprintf("local-only-%d", w.r.below(2)) // a target nobody else votes for
+	}
+	flaw := 0
+	if w.r.chance(1, 4) {
+		flaw = 1 + w.r.below(5)
+	}
+	rn.doSeqActionVote(kind, target, flaw)
+	return true
+}
+
+// doActionPH (sequential mode): the state machine's own proposed header
+func (rn *runner) doActionPH(ph tmconsensus.ProposedHeader, coq string) {
+	rn.touched[hr{ph.Header.Height, ph.Round}] = true
+	if ph.Header.Height > 0 {
+		rn.touched[hr{ph.Header.Height - 1, ph.Header.PrevCommitProof.Round}] = true
+	}
+	rn.sendAction(tmengine.VerifMRoundAction{PH: ph})
+	phs, _, _, _ := rn.cfg.RoundStore.LoadRoundState(rn.w.ctx, ph.Header.Height, ph.Round)
+	for _, p := range phs {
+		if bytes.Equal(p.Header.Hash, ph.Header.Hash) {
+			rn.knownPHs[hr{ph.Header.Height, ph.Round}] = append(rn.knownPHs[hr{ph.Header.Height, ph.Round}], ph)
+			break
+		}
+	}
+	rn.stats["sm_action_ph"]++
+	rn.printStep("STEP (MActPH %s) @@ 0 @@ %s\n", coq, rn.observe())
+}
+
 // hungExit ends the process: a blocked kernel goroutine cannot be waited for
 func (rn *runner) hungExit() {
-	for _, d := range internDefs {
-		fmt.Fprintln(rn.out, d)
-	}
+	flushDefs(rn.out)
 	fmt.Fprintf(rn.out, "END\n")
 	if f, ok := rn.out.(*os.File); ok {
 		f.Sync()
@@ -1630,6 +1870,53 @@ func (rn *runner) scripted(op string, v, c *tmconsensus.VersionedRoundView) bool
 		rn.doSMRead()
 	case "gread":
 		rn.doGRead()
+	case "act-fresh": // a vote of the state machine for a target nobody else voted for
+		if !rn.canAct() {
+			return false
+		}
+		rn.doSeqActionVote(rn.w.r.below(2), fmt.Sprintf("local-only-%d", rn.w.r.below(2)), 0)
+	case "act-dup":
+		if !rn.canAct() {
+			return false
+		}
+		if a := rn.lastAct; a != nil && rn.smKey >= 0 {
+			vt := tmconsensus.VoteTarget{Height: rn.lastEnterH, Round: rn.lastEnterR, BlockHash: a.target}
+			var sb []byte
+			if a.kind == kindPrevote {
+				sb, _ = tmconsensus.PrevoteSignBytes(vt, rn.w.ss)
+			} else {
+				sb, _ = tmconsensus.PrecommitSignBytes(vt, rn.w.ss)
+			}
+			rn.stats["sm_action_duplicate"]++
+			rn.doSeqActionSig(a.kind, a.target, sb, a.sig)
+		}
+	case "act-prevote", "act-precommit":
+		if !rn.canAct() {
+			return false
+		}
+		st := target
+		if !(rn.lastEnterH == H && rn.lastEnterR == R) {
+			if phs := rn.knownPHs[hr{rn.lastEnterH, rn.lastEnterR}]; len(phs) > 0 {
+				st = string(phs[len(phs)-1].Header.Hash)
+			}
+		}
+		kind := kindPrevote
+		if op == "act-precommit" {
+			kind = kindPrecommit
+		}
+		rn.doSeqActionVote(kind, st, 0)
+	case "act-ph":
+		if !rn.canAct() || !(rn.lastEnterH == H && rn.lastEnterR == R) {
+			return false
+		}
+		phVariant := 0
+		if rn.w.r.chance(1, 4) {
+			phVariant = 1 // wrong block hash: filed all the same (C05Act_local_ph_keeps_chain_invariant_refuted)
+			rn.stats["sm_action_ph_unchecked"]++
+		}
+		rn.phViaAction = true
+		rn.proposal(v, c, H, R, phVariant)
+		rn.phViaAction = false
 	default:
 		panic("unknown scripted op " + op)
 	}
@@ -1941,6 +2228,7 @@ func runCase(idx int, seed uint64, nOps int, out io.Writer, stats map[string]int
 	rn.startMirror()
 	internTab = map[string]string{}
 	internDefs = nil
+	internOut = 0
 	internCase = idx
 	fmt.Fprintf(out, "CASE %d %d\nINIT %d %s\n", idx, seed, initH, genesis.coq())
 	if concurrentMode {
@@ -1967,9 +2255,7 @@ func runCase(idx int, seed uint64, nOps int, out io.Writer, stats map[string]int
 			stats["final_round_nonzero"]++
 		}
 	}
-	for _, d := range internDefs {
-		fmt.Fprintln(out, d)
-	}
+	flushDefs(out)
 	fmt.Fprintf(out, "END\n")
 	rn.mcancel()
 	rn.m.Wait()
